@@ -44,6 +44,24 @@ DIM = {'Vec2': 2, 'Vec3': 3, 'Vec4': 4, 'Mat3': 3, 'Mat4': 4}
 VEC_OF = {'Mat3': 'Vec3', 'Mat4': 'Vec4'}
 LETTERS = {'Vec2': 'xy', 'Vec3': 'xyz', 'Vec4': 'xyzw'}
 
+
+class SubVec2(dm.Vec2):
+    """Application-level alias, as a user of the library writes it."""
+
+
+class SubVec3(dm.Vec3):
+    """Application-level alias (a surface normal, a colour ...)."""
+
+
+class SubVec4(dm.Vec4):
+    """Application-level alias (a homogeneous point)."""
+
+
+# Whatever the constructors of these return (the pinned tree hard-codes the
+# base class in __new__, so they yield plain vectors), it is "a vector with
+# these entries" and every operation must treat it like the plain one.
+SUB = {'Vec2': SubVec2, 'Vec3': SubVec3, 'Vec4': SubVec4}
+
 RULE = (
     'E3 bounded-exhaustive enumeration of inputs: one enumerate_cases part '
     'per operation family, every member of the stated family is executed on '
@@ -56,10 +74,30 @@ RULE = (
     'family (all points with at most two non-zero inputs: 0, 1*e_i, 2*e_i, '
     '2*e_i + 3*e_j) - this contains all pairs of basis matrices / basis '
     'vectors - plus dense guards; product laws on all triples of basis '
-    'matrices.  ~Mat4: complete {0,1}^16 and R^4 row-product grids (R = 12 '
+    'matrices.  Mat @ Vec, Mat() @ v == v, (A @ B) @ v == B @ (A @ v) and '
+    'the constructors\' action on a point are repeated with v an instance '
+    'of a user subclass of Vec3 / Vec4 (ops matvec_sub, identity_vec_sub, '
+    'vec_law_sub: same families).  Part vec_subclass: for Vec2/3/4 every '
+    'vector operation (neg abs normalize 0+v mag heading scale clamp limit '
+    'from_magnitude from_heading rotate, swizzles of length 1-2 plus '
+    'reversed / widened / foreign ones; + - * / dot distance cross lerp '
+    'sum) on every vector (pair of vectors) of a small complete grid '
+    '({0, 2, -3/2}^2, {0,2}^3, {0,2}^4, one dense fraction vector each) x '
+    'every listed scalar argument, with the operands built by a user '
+    'subclass (binary: both, only the left, only the right one): the '
+    'outcome equals the outcome on the plain vectors with the same '
+    'entries.  ~Mat4: complete {0,1}^16 and R^4 row-product grids (R = 12 '
     'dense/unit row vectors, 18 in the thorough tier) with Fraction entries '
     '(M @ ~M == I == ~M @ M exactly), thorough = the '
-    'complete {-1,0,1}^16 grid (43 046 721 matrices).  ~Mat4 on scaled '
+    'complete {-1,0,1}^16 grid (43 046 721 matrices).  Every inverse '
+    'family is history-aware: a singular matrix is inverted again right '
+    'away (the same object, then - except on the full grid - an equal new '
+    'matrix) and every call must warn and return it unchanged.  Part '
+    'mat4_inverse_mixed_numbers: every matrix of the complete row-product '
+    'grid of 6 integer rows (thorough: 8 integer rows and {0,1}^16) is '
+    'inverted as binary floats and right after as the equal Fraction '
+    'matrix (exact inverse demanded), and its double in the order Fraction, '
+    'float.  ~Mat4 on scaled '
     'matrices (part mat4_inverse_scaled; det is homogeneous, so tiny / huge '
     'determinants of regular matrices and large entries of singular ones): '
     'every matrix of a complete row-product grid B^4, singular members '
@@ -155,6 +193,27 @@ ASSUMPTIONS = [
     'A singular Mat4 must come back equal to itself with at least one '
     'warning issued through the warnings module (recorded with '
     'catch_warnings, filter "always").',
+    '"returned unchanged with a warning" holds for every call: a second ~S '
+    'of the same singular object, or of an equal new matrix, directly after '
+    'the first must warn again (the recording filter is "always", so '
+    'Python\'s once-per-location default cannot hide it).  The result of '
+    '~M must not depend on what was inverted before: equal matrices with '
+    'float and Fraction entries are inverted back to back in both orders; '
+    'the Fraction one must give the exact inverse, the float one the '
+    'inverse within 1e-12.  Histories longer than two consecutive '
+    'inversions (other matrices in between) only occur as the enumeration '
+    'order of the families happens to produce them.',
+    'Instances of user subclasses of Vec2/3/4 (class Point(Vec4): pass) '
+    'are vectors: Mat @ v and every vector operation must give, for such a '
+    'v, a result equal (==, same length) to the result for the plain '
+    'vector with the same entries; the class of the result is not '
+    'demanded, and neither is that the subclass constructor returns an '
+    'instance of the subclass (the pinned tree returns a plain vector: '
+    'shortcut info_subclass_instances_exist counts the operands that were '
+    'real subclass instances).  vec_subclass is a differential check '
+    'against the plain classes, which the other parts compare with the '
+    'textbook; subclasses that override methods and subclasses of Mat3/Mat4 '
+    'are outside the alphabet.',
 ]
 
 
@@ -912,6 +971,10 @@ def cases_mat_product(tier):
         N = n * n
         cases += [(cls, 'matmat', k, w) for k, w in specs(2 * N)]
         cases += [(cls, 'matvec', k, w) for k, w in specs(N + n)]
+    # the vector is an instance of a user subclass of Vec3 / Vec4
+    for cls in MATS:
+        n = DIM[cls]
+        cases += [(cls, 'matvec_sub', k, w) for k, w in specs(n * n + n)]
     return cases
 
 
@@ -927,19 +990,24 @@ def run_mat_product(case):
         what = f'{show(cls, a)} @ {show(cls, b)}'
         r = call('mat_product', feats, what, lambda: C(a) @ C(b))
         exp = ref_matmul(a, b, n)
-    else:
+    elif op in ('matvec', 'matvec_sub'):
         vcls = VEC_OF[cls]
+        V = CLS[vcls] if op == 'matvec' else SUB[vcls]
         x = inputs_of((kind, what_spec), N + n)
         a, b = tuple(x[:N]), tuple(x[N:])
-        what = f'{show(cls, a)} @ {show(vcls, b)}'
-        r = call('mat_product', feats, what, lambda: C(a) @ CLS[vcls](*b))
+        what = f'{show(cls, a)} @ {show(V.__name__, b)}'
+        r = call('mat_product', feats, what, lambda: C(a) @ V(*b))
         exp = ref_vecmat(a, b, n)
+    else:
+        raise HarnessError(f'unknown mat_product op {op!r}')
     if not same(r, exp):
         raise Violation('mat_product', f'{what} -> {vals_of(r)!r}, expected '
                         f'{tuple(exp)}', kind='value', **feats)
     hits = spec_hits((kind, what_spec), N)
     if any(exp):
         hits.append('product_nonzero')
+    if op == 'matvec_sub':
+        hits.append('matvec_subclass_vector')
     return info(1, hits, case)
 
 
@@ -985,6 +1053,15 @@ def cases_mat_laws(tier):
         for i, j in product(range(P), repeat=2):
             for k in range(V):
                 cases.append((cls, 'vec_law', i, j, k))
+    # the same vector laws with v an instance of a user subclass
+    for cls in MATS:
+        P = len(mat_pool(cls))
+        V = len(vec_pool(cls))
+        for k in range(V):
+            cases.append((cls, 'identity_vec_sub', 0, 0, k))
+        for i, j in product(range(P), repeat=2):
+            for k in range(V):
+                cases.append((cls, 'vec_law_sub', i, j, k))
     return cases
 
 
@@ -1015,14 +1092,22 @@ def run_mat_laws(case):
         if not same(right, a):
             bad(f'{show(cls, a)} @ {cls}()', right, a)
         return info(3, ['default_is_identity'], case)
-    if op == 'identity_vec':
-        vcls = VEC_OF[cls]
+    if op not in ('identity_vec', 'identity_vec_sub', 'assoc', 'vec_law',
+                  'vec_law_sub'):
+        raise HarnessError(f'unknown mat_laws op {op!r}')
+    subclass = op.endswith('_sub')
+    vcls = VEC_OF[cls]
+    V = SUB[vcls] if subclass else CLS[vcls]
+    vname = V.__name__
+    if op in ('identity_vec', 'identity_vec_sub'):
         v = vec_pool(cls)[k]
-        r = call('mat_laws', feats, f'{cls}() @ {show(vcls, v)}',
-                 lambda: C() @ CLS[vcls](*v))
+        r = call('mat_laws', feats, f'{cls}() @ {show(vname, v)}',
+                 lambda: C() @ V(*v))
         if not same(r, v):
-            bad(f'{cls}() @ {show(vcls, v)}', r, v)
-        return info(1, ['default_is_identity'], case)
+            bad(f'{cls}() @ {show(vname, v)}', r, v)
+        return info(1, ['default_is_identity']
+                    + (['identity_subclass_vector'] if subclass else []),
+                    case)
     a, b = pool[i], pool[j]
     if op == 'assoc':
         c = pool[k]
@@ -1042,14 +1127,13 @@ def run_mat_laws(case):
         else:
             hits.append('dense_guard')
         return info(4, hits, case)
-    vcls = VEC_OF[cls]
     v = vec_pool(cls)[k]
-    what = f'({show(cls, a)} @ {show(cls, b)}) @ {show(vcls, v)}'
+    what = f'({show(cls, a)} @ {show(cls, b)}) @ {show(vname, v)}'
     left = call('mat_laws', feats, what,
-                lambda: (C(a) @ C(b)) @ CLS[vcls](*v))
-    what2 = f'{show(cls, b)} @ ({show(cls, a)} @ {show(vcls, v)})'
+                lambda: (C(a) @ C(b)) @ V(*v))
+    what2 = f'{show(cls, b)} @ ({show(cls, a)} @ {show(vname, v)})'
     right = call('mat_laws', feats, what2,
-                 lambda: C(b) @ (C(a) @ CLS[vcls](*v)))
+                 lambda: C(b) @ (C(a) @ V(*v)))
     exp = ref_vecmat(b, ref_vecmat(a, v, n), n)
     if not same(left, exp):
         bad(what, left, exp)
@@ -1061,6 +1145,8 @@ def run_mat_laws(case):
             hits.append('basis_triple_nonzero')
     else:
         hits.append('dense_guard')
+    if subclass:
+        hits.append('vec_law_subclass_vector')
     return info(4, hits, case)
 
 
@@ -1121,7 +1207,12 @@ def check_inverse_exact(m, hits, num='frac'):
     those floats.  1/det is then rounded once and every entry is one more
     rounded product, so the result is compared entry by entry with the exact
     inverse with relative tolerance 1e-12 (the exact inverse itself is
-    verified to be two-sided over Fractions)."""
+    verified to be two-sided over Fractions).
+
+    A singular matrix is inverted three times in a row - the object again,
+    then a new equal matrix: every call must warn and hand the matrix back
+    (the warning is part of the result, not a once-only event).
+    -> number of implementation calls."""
     feats = dict(cls='Mat4', op='invert')
     arg = m
     if num == 'float':
@@ -1154,6 +1245,24 @@ def check_inverse_exact(m, hits, num='frac'):
         hits['singular_matrix'] = hits.get('singular_matrix', 0) + 1
         if r is M:
             hits['singular_returns_same_object'] = 1
+        for again, M2 in (('the same object again', M),
+                          ('an equal new matrix right after', dm.Mat4(arg))):
+            with warnings.catch_warnings(record=True) as log:
+                warnings.simplefilter('always')
+                r2 = call('mat4_inverse', feats, f'{what} ({again})',
+                          lambda: ~M2)
+            if not same(r2, arg):
+                raise Violation(
+                    'mat4_inverse', f'{what} (singular, {again}) -> '
+                    f'{vals_of(r2)!r}, expected the matrix unchanged',
+                    kind='singular_changed_on_repeat', **feats)
+            if not log:
+                raise Violation(
+                    'mat4_inverse', f'{what} (singular): the first call '
+                    f'warned, {again} it returned without a warning',
+                    kind='singular_no_warning_on_repeat', **feats)
+        hits['singular_inverted_again'] = \
+            hits.get('singular_inverted_again', 0) + 1
         biggest = max(abs(x) for x in m)
         if biggest >= LARGE_ENTRY:
             hits['singular_with_large_entries'] = \
@@ -1161,7 +1270,7 @@ def check_inverse_exact(m, hits, num='frac'):
         elif 0 < biggest < F(1, 100):
             hits['singular_with_tiny_entries'] = \
                 hits.get('singular_with_tiny_entries', 0) + 1
-        return
+        return 3
     band = det_band(det)
     if same(r, arg) and list(inv) != list(m):
         raise Violation(
@@ -1210,6 +1319,7 @@ def check_inverse_exact(m, hits, num='frac'):
             hits['determinant_below_1e_12'] = 1
         elif abs(det) < F(1, 10 ** 9):
             hits['determinant_below_1e_9'] = 1
+    return 1
 
 
 def run_mat4_inverse(case):
@@ -1226,8 +1336,7 @@ def run_mat4_inverse(case):
     for r2 in rows:
         for r3 in rows:
             m = tuple(F(x) for x in top + r2 + r3)
-            check_inverse_exact(m, hits)
-            calls += 1
+            calls += check_inverse_exact(m, hits)
     return {'calls': calls, 'hits': hits, 'key': case}
 
 
@@ -1240,6 +1349,8 @@ def run_mat4_inverse_full(case):
     feats = dict(cls='Mat4', op='invert')
     Mat4 = dm.Mat4
     nsing = nreg = same_obj = 0
+    # a singular matrix is inverted twice in a row (the same object): both
+    # calls must warn
     with warnings.catch_warnings(record=True) as log:
         warnings.simplefilter('always')
         for bot, B in bottom_table():
@@ -1267,6 +1378,25 @@ def run_mat4_inverse_full(case):
                         f'{vals_of(r)!r}, expected the matrix unchanged',
                         kind='singular_changed', **feats)
                 nsing += 1
+                try:
+                    r2 = ~M
+                except Exception as exc:
+                    raise Violation('mat4_inverse', f'~{show("Mat4", m)} '
+                                    f'(again) raised {type(exc).__name__}: '
+                                    f'{exc}', kind='raised', **feats)
+                if not log:
+                    raise Violation(
+                        'mat4_inverse', f'~{show("Mat4", m)} (singular): the '
+                        'first call warned, the same object again returned '
+                        'without a warning',
+                        kind='singular_no_warning_on_repeat', **feats)
+                del log[:]
+                if r2 is not M and not same(r2, m):
+                    raise Violation(
+                        'mat4_inverse', f'~{show("Mat4", m)} (singular, '
+                        f'again) -> {vals_of(r2)!r}, expected the matrix '
+                        'unchanged', kind='singular_changed_on_repeat',
+                        **feats)
                 continue
             if log:
                 del log[:]
@@ -1289,11 +1419,72 @@ def run_mat4_inverse_full(case):
     hits = {}
     if nsing:
         hits['singular_matrix'] = nsing
+        hits['singular_inverted_again'] = nsing
     if same_obj:
         hits['singular_returns_same_object'] = 1
     if nreg:
         hits['nonsingular_matrix'] = nreg
-    return {'calls': nsing + nreg, 'hits': hits, 'key': case}
+    return {'calls': 2 * nsing + nreg, 'hits': hits, 'key': case}
+
+
+# ---------------------------------------------------------------------------
+# part mat4_inverse_mixed_numbers: the inverse of a matrix must not depend on
+# which matrices were inverted before it.  Equal matrices with different
+# entry types (3.0 == Fraction(3), same hash) are inverted back to back: the
+# binary-float version first and the Fraction version right after - the
+# Fraction result must still be the exact inverse - and the other way round
+# (on the doubled matrix, so that the two orders never share a value).
+MIXED_ORDERS = ('float_first', 'fraction_first')
+
+
+def _mixed_cases(base):
+    n = len(SCALE_BASES[base])
+    return [('mixed', base, i, j, order) for order in MIXED_ORDERS
+            for i in range(n) for j in range(n)]
+
+
+def cases_mat4_inverse_mixed(tier):
+    cases = _mixed_cases('int6')
+    if tier == 'thorough':
+        cases += _mixed_cases('int8') + _mixed_cases('bin')
+    return cases
+
+
+def run_mat4_inverse_mixed(case):
+    kind, base, i, j, order = case
+    if kind != 'mixed' or order not in MIXED_ORDERS:
+        raise HarnessError(f'unknown case {case!r}')
+    rows = [fracs(r) for r in SCALE_BASES[base]]
+    k = 1 if order == 'float_first' else 2
+    nums = ('float', 'frac') if order == 'float_first' else ('frac', 'float')
+    hits = {}
+    calls = 0
+    top = rows[i] + rows[j]
+    for r2 in rows:
+        for r3 in rows:
+            m = tuple(k * x for x in top + r2 + r3)
+            for pos, num in enumerate(nums):
+                try:
+                    calls += check_inverse_exact(m, hits, num)
+                except Violation as v:
+                    if pos == 0:
+                        raise
+                    # the second of two equal matrices: the history matters
+                    raise Violation(
+                        v.clause, f'{v.detail}  [inverted right after the '
+                        f'equal matrix with {nums[0]} entries]',
+                        **dict(v.features, after=nums[0]))
+            det, inv = ref_inverse(m)
+            if det != 0:
+                name = f'mixed_{order}'
+                hits[name] = hits.get(name, 0) + 1
+                if any(e.denominator & (e.denominator - 1) for e in inv):
+                    # 1/det is not a binary float: a float inverse handed
+                    # out for the Fraction matrix cannot be exact
+                    hits[f'mixed_{order}_inexact_in_floats'] = 1
+            else:
+                hits['mixed_singular_pair'] = 1
+    return {'calls': calls, 'hits': hits, 'key': case}
 
 
 # ---------------------------------------------------------------------------
@@ -1374,8 +1565,7 @@ def run_mat4_inverse_scaled(case):
                         m[4 * c + k] *= s
                 else:
                     raise HarnessError(f'unknown scaling mode {mode!r}')
-                check_inverse_exact(tuple(m), hits, num)
-                calls += 1
+                calls += check_inverse_exact(tuple(m), hits, num)
     elif case[0] == 'affine':
         _, grid, i, ti, f, num = case
         rows = ROWS3[grid]
@@ -1387,8 +1577,7 @@ def run_mat4_inverse_scaled(case):
             for a2 in rows:
                 m = (a0 + (zero,) + tuple(s * x for x in a1) + (zero,)
                      + tuple(s * x for x in a2) + (zero,) + t + (one,))
-                check_inverse_exact(m, hits, num)
-                calls += 1
+                calls += check_inverse_exact(m, hits, num)
     else:
         raise HarnessError(f'unknown case kind {case[0]!r}')
     return {'calls': calls, 'hits': hits, 'key': case}
@@ -1419,23 +1608,20 @@ def cases_mat4_constructors(tier):
     return cases
 
 
-def act(clause, feats, what, M, p):
-    return call(clause, feats, f'{what} @ {show("Vec4", p)}',
-                lambda: M @ dm.Vec4(*p))
-
-
 def run_mat4_constructors(case):
     op = case[0]
     feats = dict(cls='Mat4', op=op)
     clause = 'mat4_constructors'
     pts = [decs(p) for p in POINTS]
     calls = 0
-    hits = []
+    hits = ['constructor_on_subclass_point']
 
     def compare(what, M, transform, tol=None):
         n = 0
-        for p in pts:
-            r = act(clause, feats, what, M, p)
+        # the last round: a point that is an instance of a Vec4 subclass
+        for p, V in [(p, dm.Vec4) for p in pts] + [(pts[4], SubVec4)]:
+            r = call(clause, feats, f'{what} @ {show(V.__name__, p)}',
+                     lambda: M @ V(*p))
             exp = transform(p)
             t = vals_of(r)
             if tol is None:
@@ -1449,9 +1635,10 @@ def run_mat4_constructors(case):
                 except (TypeError, ValueError):
                     ok = False
             if not ok:
-                raise Violation(clause, f'{what} @ {show("Vec4", p)} -> '
-                                f'{t!r}, expected {tuple(exp)}', kind='value',
-                                **feats)
+                raise Violation(clause, f'{what} @ {show(V.__name__, p)} -> '
+                                f'{t!r}, expected {tuple(exp)}',
+                                kind='value' if V is dm.Vec4
+                                else 'value_subclass_point', **feats)
             n += 1
         return n
 
@@ -1516,6 +1703,177 @@ def run_mat4_constructors(case):
     if right < left or top < bottom or far < near:
         hits.append('ortho_flipped_axis')
     return info(calls, hits, case)
+
+
+# ---------------------------------------------------------------------------
+# part vec_subclass: every vector operation on instances of user subclasses of
+# Vec2/3/4, alone and mixed with plain vectors.  Differential: the result must
+# equal (same length, entries ==, same exception type) the result of the same
+# call on the plain vectors with the same entries, which the other parts
+# compare with the textbook.  The class of the result is not demanded.
+SUB_SCALARS = {
+    'scale': [(x,) for x in SCALARS],
+    'clamp': [(-1, '1/2'), (0, 0), ('1/2', 2)],
+    'limit': [(0,), (1,), ('5/2',)],
+    'from_magnitude': [(0,), (2,)],
+    'from_heading': [(0,), (8,), (16,)],        # indices into ANGLES
+    'rotate': [(0,), (8,), (16,)],
+    'lerp': [(x,) for x in ALPHAS],
+}
+SUB_UNARY = ('neg', 'abs', 'normalize', 'zero_plus', 'mag', 'heading',
+             'scale', 'clamp', 'limit', 'from_magnitude', 'from_heading',
+             'rotate', 'swizzle')
+SUB_BINARY = ('add', 'sub', 'mul', 'div', 'dot', 'distance', 'cross', 'lerp',
+              'sum')
+SUB_ONLY = {'mag': ('Vec2', 'Vec3'), 'heading': ('Vec2',),
+            'limit': ('Vec2', 'Vec3'), 'from_magnitude': ('Vec2', 'Vec3'),
+            'from_heading': ('Vec2',), 'rotate': ('Vec2',),
+            'cross': ('Vec3',)}
+
+
+def sub_pool(cls):
+    n = DIM[cls]
+    if cls == 'Vec2':
+        pool = list(product((0, 2, '-3/2'), repeat=2))
+    else:
+        pool = list(product((0, 2), repeat=n))
+    pool.append(tuple(enc(x) for x in dense('fractions', n)))
+    return pool
+
+
+def sub_swizzles(cls):
+    own = LETTERS[cls]
+    out = [''.join(t) for k in (1, 2) for t in product(own, repeat=k)]
+    out += [own[::-1], (own * 4)[:4], own + 'a', 'a']
+    return sorted(set(out), key=lambda t: (len(t), t))
+
+
+def cases_vec_subclass(tier):
+    cases = []
+    for cls in VECS:
+        npool = len(sub_pool(cls))
+        cases.append((cls, 'ctor', (), -1, -1, 's'))
+        for op in SUB_UNARY:
+            if cls not in SUB_ONLY.get(op, VECS):
+                continue
+            if op == 'swizzle':
+                args = [(t,) for t in sub_swizzles(cls)]
+            else:
+                args = SUB_SCALARS.get(op, [()])
+            for arg in args:
+                for i in range(npool):
+                    cases.append((cls, op, tuple(arg), i, -1, 's'))
+        for op in SUB_BINARY:
+            if cls not in SUB_ONLY.get(op, VECS):
+                continue
+            for arg in SUB_SCALARS.get(op, [()]):
+                for i in range(npool):
+                    for j in range(npool):
+                        for mix in ('ss', 'sp', 'ps'):
+                            cases.append((cls, op, tuple(arg), i, j, mix))
+    return cases
+
+
+def _sub_apply(op, arg, vs):
+    a = vs[0]
+    if op == 'neg':
+        return -a
+    if op == 'abs':
+        return abs(a)
+    if op == 'zero_plus':
+        return 0 + a
+    if op in ('mag', 'heading'):
+        return getattr(a, op)
+    if op == 'swizzle':
+        return getattr(a, arg[0])
+    if op == 'normalize':
+        return a.normalize()
+    if op in ('scale', 'limit', 'from_magnitude'):
+        return getattr(a, op)(dec(arg[0]))
+    if op == 'clamp':
+        return a.clamp(dec(arg[0]), dec(arg[1]))
+    if op in ('from_heading', 'rotate'):
+        return getattr(a, op)(ANGLES[arg[0]])
+    b = vs[1]
+    if op == 'add':
+        return a + b
+    if op == 'sub':
+        return a - b
+    if op == 'mul':
+        return a * b
+    if op == 'div':
+        return a / b
+    if op in ('dot', 'distance', 'cross'):
+        return getattr(a, op)(b)
+    if op == 'lerp':
+        return a.lerp(b, dec(arg[0]))
+    if op == 'sum':
+        return sum([a, b])
+    raise HarnessError(f'unknown vec_subclass op {op!r}')
+
+
+def _sub_attempt(op, arg, vs):
+    try:
+        return ('value', _sub_apply(op, arg, vs))
+    except HarnessError:
+        raise
+    except Exception as exc:
+        return ('raised', type(exc).__name__)
+
+
+def run_vec_subclass(case):
+    cls, op, arg, i, j, mix = case
+    P, S = CLS[cls], SUB[cls]
+    n = DIM[cls]
+    feats = dict(cls=cls, op=op)
+    clause = 'vec_subclass'
+    hits = ['vec_subclass_operand']
+    if op == 'ctor':
+        r = call(clause, feats, f'{S.__name__}()', S)
+        if not same(r, [0] * n):
+            raise Violation(clause, f'{S.__name__}() -> {r!r}, expected the '
+                            'zero vector', kind='construction', **feats)
+        return info(1, hits, case)
+    pool = sub_pool(cls)
+    operands = [decs(pool[i])] + ([decs(pool[j])] if j >= 0 else [])
+    if len(mix) != len(operands) or set(mix) - set('sp'):
+        raise HarnessError(f'bad operand kinds in {case!r}')
+    plain = [P(*x) for x in operands]
+    mixed = []
+    for kind, x in zip(mix, operands):
+        if kind == 'p':
+            mixed.append(P(*x))
+            continue
+        v = call(clause, feats, show(S.__name__, x), S, *x)
+        if not isinstance(v, P) or not same(v, x) or v != P(*x):
+            raise Violation(clause, f'{show(S.__name__, x)} -> {v!r}: not a '
+                            f'{cls} with these entries', kind='construction',
+                            **feats)
+        if type(v) is S:
+            hits.append('info_subclass_instances_exist')
+        mixed.append(v)
+    label = ', '.join(show(S.__name__ if k == 's' else cls, x)
+                      for k, x in zip(mix, operands))
+    what = f'{op}{tuple(arg)!r} on {label}'
+    want = _sub_attempt(op, arg, plain)
+    got = _sub_attempt(op, arg, mixed)
+    if want[0] != got[0] or (want[0] == 'raised' and want[1] != got[1]):
+        raise Violation(clause, f'{what}: {got!r}, on the plain vectors with '
+                        f'the same entries: {want!r}', kind='raised', **feats)
+    if want[0] == 'raised':
+        hits.append('vec_subclass_same_exception')
+        return info(2, hits, case)
+    w, g = want[1], got[1]
+    wt = vals_of(w)
+    ok = same(g, wt) if wt is not None else (vals_of(g) is None and g == w)
+    if not ok:
+        raise Violation(clause, f'{what} -> {g!r}, on the plain vectors with '
+                        f'the same entries -> {w!r}', kind='value', **feats)
+    if 'p' in mix:
+        hits.append('vec_subclass_mixed_with_plain')
+    if wt is not None and type(g) is not type(w):
+        hits.append('info_result_class_differs')
+    return info(2, hits, case)
 
 
 # ---------------------------------------------------------------------------
@@ -1662,11 +2020,14 @@ PARTS = {
     'clamp': (cases_clamp, run_clamp),
     'vec_limit': (cases_vec_limit, run_vec_limit),
     'swizzle': (cases_swizzle, run_swizzle),
+    'vec_subclass': (cases_vec_subclass, run_vec_subclass),
     'mat_linear': (cases_mat_linear, run_mat_linear),
     'mat_product': (cases_mat_product, run_mat_product),
     'mat_laws': (cases_mat_laws, run_mat_laws),
     'mat4_constructors': (cases_mat4_constructors, run_mat4_constructors),
     'mat4_inverse': (cases_mat4_inverse, run_mat4_inverse),
+    'mat4_inverse_mixed_numbers': (cases_mat4_inverse_mixed,
+                                   run_mat4_inverse_mixed),
     'mat4_inverse_scaled': (cases_mat4_inverse_scaled,
                             run_mat4_inverse_scaled),
     'mat4_inverse_full_grid': (cases_mat4_inverse_full,
@@ -1696,7 +2057,14 @@ def run(tier, rep):
         ortho_box_corners_to_unit_cube=1, exact_fraction_division=1,
         lerp_alpha1_is_other=1, cross_nonzero=1,
         distance_perfect_square=1, distance_irrational=1,
-        rotate=1, from_heading=1, from_magnitude=1, polar=1)
+        rotate=1, from_heading=1, from_magnitude=1, polar=1,
+        vec_subclass_operand=1, vec_subclass_mixed_with_plain=1,
+        vec_subclass_same_exception=1,
+        matvec_subclass_vector=1, vec_law_subclass_vector=1,
+        identity_subclass_vector=1, constructor_on_subclass_point=1,
+        singular_inverted_again=1, mixed_float_first=1,
+        mixed_fraction_first=1, mixed_float_first_inexact_in_floats=1,
+        mixed_fraction_first_inexact_in_floats=1, mixed_singular_pair=1)
     inputs = {}
     for name, (make_cases, runner) in PARTS.items():
         if name in THOROUGH_ONLY and tier != 'thorough':
